@@ -660,6 +660,122 @@ def run_cases(ctx, elk, m, cases, tag):
     return st
 
 
+# ------------------------------------------------------------------ c31.uninit: declared-but-uninitialised caller locals
+# (`var x: Int`) are NOT in the Coq model (its locals always carry a value).  Implementation-level property oracle only:
+# an expansion that never declares x and contains no unhygienic splice must not be able to assign the caller's x, and a
+# `x := e` of the expansion is a local of the expansion whatever the caller declares.
+
+UNINIT_STREAM = "c31.uninit"
+# name -> (macro prelude lines, quoted body lines, expected verdict, expected output, key of the class)
+UNINIT_TEMPLATES = {
+    "if-assign": ([], ["if true", "  {x} = 5", "end"], "R", None,
+                  "uninitialised-caller-local:hygienic-assignment-in-conditional-accepted"),
+    "if-else-assign": ([], ["if true", "  {x} = 5", "else", "  {x} = 6", "end"], "R", None,
+                       "uninitialised-caller-local:hygienic-assignment-in-conditional-accepted"),
+    "cond-local-if-else-assign": ([], ["{k} := 1", "if {k} > 0", "  {x} = 5", "else", "  {x} = 6", "end", "nil"], "R", None,
+                                  "uninitialised-caller-local:hygienic-assignment-in-conditional-accepted"),
+    "if-else-declare": ([], ["if true", "  {x} := 5", "else", "  {x} := 6", "end"], "R!", None,
+                        "uninitialised-caller-local:hygienic-declaration-in-conditional-treated-as-assignment"),
+    "unhygienic-if-else-assign": (["u0 := Macro.unhygienic(quote {x} = 5)"],
+                                  ["if true", "  !{{u0}}", "else", "  !{{u0}}", "end"], "A", [5],
+                                  "uninitialised-caller-local:unhygienic-assignment-rejected"),
+    "own-local-if-assign": ([], ["{x} := 5", "if true", "  {x} = 6", "end", "println({x}.inspect)"], "A", [6, 1],
+                            "uninitialised-caller-local:own-local-of-the-expansion"),
+}
+
+
+def uninit_programs(tmpl, x, site):
+    """-> (macro program, hand expansion with the expansion's names renamed)"""
+    prelude, body, want, out, key = UNINIT_TEMPLATES[tmpl]
+    k = [n for n in "abc" if n != x][0]
+    ind = "  " if site == "method" else ""
+    # tail of the caller: R templates are followed by a legal initialisation + read (so the only possible diagnostic is
+    # the expansion's); "R!" reads the still uninitialised caller local (the expansion declared its OWN x)
+    if want == "R!":
+        tail = ["println(%s.inspect)" % x]
+    elif tmpl == "unhygienic-if-else-assign":
+        tail = ["println(%s.inspect)" % x]
+    else:
+        tail = ["%s = 1" % x, "println(%s.inspect)" % x]
+    head = ["var %s: Int" % x]
+
+    def wrap(lines):
+        if site == "method":
+            return ["def main"] + ["  " + l for l in lines] + ["end", "main()"]
+        return lines
+    mac = ["using Std::Elk::AST::*", "", "macro m()"] + ["  " + l.format(x=x, k=k) for l in prelude] + ["  quote"] + \
+        ["    " + l.format(x=x, k=k) for l in body] + ["  end", "end", ""] + wrap(head + ["m!()"] + tail)
+    if tmpl == "unhygienic-if-else-assign":
+        hbody = ["if true", "  %s = 5" % x, "else", "  %s = 5" % x, "end"]
+    else:
+        hbody = [l.format(x=x + "_1", k=k + "_1") for l in body]
+    hand = wrap(head + ["do"] + ["  " + l for l in hbody] + ["end"] + tail)
+    return "\n".join(mac) + "\n", "\n".join(hand) + "\n"
+
+
+def run_uninit(ctx, elk):
+    rng = ctx.rng(UNINIT_STREAM)
+    cases = []
+    path = os.path.join(vlib.ROOT, "corpus", "C31.uninit.txt")
+    if os.path.exists(path):
+        for line in open(path):
+            line = line.strip()
+            if line and not line.startswith("#"):
+                t, x, site = line.split()
+                cases.append((t, x, site))
+    ncorpus = len(cases)
+    for t in sorted(UNINIT_TEMPLATES):
+        for site in ("top", "method"):
+            names = "abc" if ctx.n(0, 1) else rng.choice("abc")
+            for x in names:
+                if (t, x, site) not in cases:
+                    cases.append((t, x, site))
+    progs = []
+    for i, (t, x, site) in enumerate(cases):
+        m, h = uninit_programs(t, x, site)
+        progs += [("u%d_m" % i, m), ("u%d_h" % i, h)]
+    res = vlib.run_programs(elk, progs, os.path.join(ctx.workdir, "uninit"), timeout=90, env={"GOMAXPROCS": "4"})
+    srcs = dict(progs)
+    bad = 0
+    dist = {}
+    for i, (t, x, site) in enumerate(cases):
+        prelude, body, want, out, key = UNINIT_TEMPLATES[t]
+        om, oh = observe(res["u%d_m" % i]), observe(res["u%d_h" % i])
+        dist[t] = dist.get(t, 0) + 1
+        why = None
+        if want in ("R", "R!"):
+            for who, o in (("macro program", om), ("hand expansion", oh)):
+                if o[0] != "R":
+                    why = "%s must be rejected, elk gave %s" % (who, o)
+                elif want == "R" and "undefined local `..`" not in o[1]:
+                    why = "%s rejected without `undefined local`: %s" % (who, o)
+                if why:
+                    break
+        else:
+            for who, o in (("macro program", om), ("hand expansion", oh)):
+                if o != ("A", out):
+                    why = "%s must print %s, elk gave %s" % (who, out, o)
+                    break
+        if why:
+            bad += 1
+            ctx.fail(key, "template %s, caller local `%s` declared with `var %s: Int` and not initialised, %s: %s\n"
+                     "--- macro program ---\n%s--- hand expansion ---\n%s" % (t, x, x, site, why, srcs["u%d_m" % i], srcs["u%d_h" % i]),
+                     stream=UNINIT_STREAM, case="%s %s %s" % (t, x, site), impl={"macro": om, "hand": oh},
+                     model={"expected_verdict": want, "expected_output": out},
+                     oracle="property evaluated on the implementation only (uninitialised locals are not in the Coq model): "
+                            "without an unhygienic splice an expansion cannot assign a caller local, `x := e` in an expansion "
+                            "is a local of the expansion; the hand expansion with renamed locals must agree")
+    ctx.stream(UNINIT_STREAM, len(cases), len(set(cases)),
+               "caller declares `var x: Int` without initialising it (top level / method body, x over 3 names) and calls a "
+               "macro from %d templates: hygienic `x = e` under if / if-else / if with a macro-local condition (must be "
+               "rejected: undefined local), hygienic `x := e` in both branches followed by a caller read (must be rejected: "
+               "the caller's x is still uninitialised), and two accepted controls (unhygienic assignment reaches the caller; "
+               "an expansion with its own x); the macro program and its hand expansion (expansion's names renamed) are run "
+               "on elk; implementation-level oracle, no model" % len(UNINIT_TEMPLATES),
+               [{"template": t, "name": x, "site": site} for t, x, site in cases[:3]],
+               dict(templates=dist, programs=len(cases), elk_runs=len(progs), failing_programs=bad, corpus_programs=ncorpus))
+
+
 def load_corpus(path):
     out = []
     if os.path.exists(path):
@@ -679,10 +795,14 @@ def run(ctx):
     ctx.explanation = (
         "Proved in Coq for ALL environments, flags and programs of the scope model (Model/C31_Hygiene.v: the local-"
         "environment chain of types/checker/local.go with default / macro-boundary / conditional frames, add, get, "
-        "resolve(name, unhygienic), and a statement language x := e, x = e, println, do-blocks, if, macro boundaries, "
-        "unhygienic expression and statement splices, in a checker mode that visits every branch and an execution "
-        "mode): locals of an expansion are unresolvable after it; hygienic resolution below a boundary never reaches "
-        "past it and a body without unhygienic splices returns the caller's environment unchanged; caller locals are "
+        "resolve(name, unhygienic), and a language whose EXPRESSIONS bind and assign - (x := e), (x = e) as operands of "
+        "+, println arguments, if conditions and initialisers, evaluated left to right with the environment threaded "
+        "through - with expression statements, println, do-blocks, if, macro boundaries, unhygienic expression and "
+        "statement splices, in a checker mode that visits every branch and an execution mode; an expansion may be ONE "
+        "expression): locals of an expansion are unresolvable after it; hygienic resolution below a boundary never reaches "
+        "past it and a body without unhygienic splices returns the caller's environment unchanged, and evaluating "
+        "a single splice-free expression below a boundary (binders at any depth) changes nothing beyond the boundary frame; "
+        "a binder touches the current frame only; caller locals are "
         "reached exactly by unhygienic resolution; a boundary is equal (verdict, output, final caller environment) to "
         "a plain block around the body with the expansion's locals renamed by any fresh injective renaming, and so is the "
         "whole program with every boundary expanded that way (expand_all); a program "
@@ -693,7 +813,10 @@ def run(ctx):
         "re-checks that on the model for every case), with the real elk binary (three-way comparison with the "
         "extracted model). Not modelled: macro parameters/unquoted arguments (an argument spliced with "
         "unquote is part of the expansion and resolves hygienically, by design), type and pattern macros, closures and "
-        "methods inside expansions, loops.")
+        "methods inside expansions, loops, declared-but-uninitialised locals (`var x: Int`): for those the stream "
+        "c31.uninit is an implementation-level property oracle only (no model): template macros that hygienically assign "
+        "or declare a name the caller declared without initialising must be rejected / must not touch the caller's local, "
+        "macro program and renamed hand expansion both run on elk.")
     ctx.trusted_base += [
         "Python generator and the two printers (macro program / plain program) in checks/C31.py",
         "the correspondence between checker frames and compiler scopes is tested, not proved",
@@ -717,8 +840,12 @@ def run(ctx):
     samples = [{"program": sx_str(p), "in_method": im} for _, p, im in cases[:3]]
     tot = lambda k: st[k] + (st_c[k] if st_c else 0)
     ctx.stream(STREAM, tot("programs"), len(st["distinct"] | (st_c["distinct"] if st_c else set())),
-               "seeded macro bodies (2-5 statements, nesting <= 2: x := e, x = e, println, do, if, nested macro call; "
-               "odd families add unhygienic reads / assignments / declarations / prints / nested calls) over 3 names, "
+               "seeded macro bodies over 3 names in three family kinds: (a) the expansion is ONE statement that is not a "
+               "declaration - println / expression statement / unhygienic assignment / if whose expression binds in a nested "
+               "position: (x := e) + x, e + (x := e), (x := (y := e)), (y = e) + e, !{unhygienic (x = e)} + e; (b) 1-5 "
+               "statements with such binder expressions as operands, println arguments, if conditions and initialisers; "
+               "(c) 2-5 statements, binders as statements only; all with nesting <= 2 of x := e, x = e, println, do, if, "
+               "nested macro call; odd families add unhygienic reads / assignments / declarations / prints / nested calls; "
                "each called (once or twice; plain, inside do, inside if, next to a caller block local; top level or in a "
                "method) from a scope pre-defining every subset of the 3 names, followed by prints of the caller's "
                "locals and sometimes of a body-only name; evaluation = one program for which the macro version on elk, "
@@ -729,6 +856,7 @@ def run(ctx):
                     model_rejected=tot("rejected"), values_compared=tot("printed"), elk_runs=tot("elk_runs"),
                     mismatching_programs=tot("mismatches"), crashing_programs=tot("crashes"),
                     reject_reasons=st["reject_reasons"], corpus_programs=(st_c["programs"] if st_c else 0)))
+    run_uninit(ctx, elk)
     if st["programs"] and st["accepted"] * 5 < st["programs"]:
         ctx.broke("correspondence %s: fewer than 20%% of the generated programs are accepted by the model (%d of %d)"
                   % (STREAM, st["accepted"], st["programs"]))
